@@ -261,6 +261,22 @@ func main() {
 			}
 		}
 	}
+	// --- integral parts that are THEMSELVES k*2^w + r with a small r (a hand-written digit loop without an overflow test
+	// turns them into the amount r: seed C15f), with leading zeros and fractions
+	for _, bits := range []uint{32, 63, 64, 65, 128} {
+		mod := new(big.Int).Lsh(big.NewInt(1), bits)
+		for k := int64(1); k <= 9; k++ {
+			for _, rr := range []int64{0, 1, 2, 5, 2048, int64(consensus.MaxMass) - 1, int64(consensus.MaxMass), int64(consensus.MaxMass) + 1} {
+				v := new(big.Int).Mul(mod, big.NewInt(k))
+				v.Add(v, big.NewInt(rr))
+				for _, frac := range []string{"", ".5", ".00000001", "."} {
+					dist["wrapint"]++
+					parse(v.String() + frac)
+				}
+				parse("000" + v.String())
+			}
+		}
+	}
 	// --- random amounts
 	for i := 0; i < n; i++ {
 		var m int64
